@@ -27,7 +27,7 @@ MANIFEST = dict(
           "parameter vector), kCalc_pressure_off, kCalc_reference, vant_hoff, dhToKJ_*; rewrite_residual_eq / "
           "rewrite_mass_action_iff (for every substitution sequence of rewriteToMasters the database equation holds iff the "
           "rewritten one does), rewrite_only_masters, rewrite_preserves_balance, residual_pivot, speciate_mass_action; "
-          "iterate_sound / gate_sound (for every step function runModel = ok implies converged and checkResiduals), "
+          "kCalc_smul / residual_solveFor (electron equation of a redox couple), satIndex_rewrite; iterate_sound / gate_sound (for every step function runModel = ok implies converged and checkResiduals), "
           "converged_mb/alk/cb/mu with the code's escape clauses, readouts_consistent; non-vacuity examples. "
           "Obligations over generated data: per dumped state the database mass-action residual of every species <= 1e-9, sums at "
           "1e-7 relative, read-out identities. Correspondence: rewritten stoichiometry, log K vectors, lk(T), lm, gate verdict, "
@@ -35,7 +35,7 @@ MANIFEST = dict(
     note=("Trusted: Lean kernel, tools/dbparse.py (independent parser, itself cross-checked against the engine's tables), the "
           "harness, the tolerance logic here. Partial: Newton convergence, floating-point rounding, the pressure term above 1 atm "
           "(scope is 1 atm) and the activity-coefficient model (gammas are taken as reported; C16 owns them) are not proved; "
-          "the electron equation of a non-default redox couple is taken from the engine's pe_x table."),
+          "valence-state totals (TOT(\"Fe(2)\")) are not recomputed, only element totals."),
 )
 
 STALE_KEY = "stale-molalities-after-revise-guesses"
@@ -376,7 +376,8 @@ def judge(d, mc, stats):
             else:
                 stats["res"] += 1
                 stats["seen"].add(n)
-                stats["res_max"] = max(stats["res_max"], abs(res))
+                if not stale:
+                    stats["res_max"] = max(stats["res_max"], abs(res))
                 if not abs(res) <= TOL_LOG:
                     if alt_pe:
                         stats["res_altpe_skipped"] += 1
@@ -472,6 +473,34 @@ def judge(d, mc, stats):
         stats["stale_states_excused"] += 1
         d["finding"] = found
     return orc, tie
+
+
+def judge_selected_output(run, stats):
+    """GetSelectedOutputValue cells (-pH -pe -temperature -alkalinity -ionic_strength -charge_balance -water) of row r
+    against the state dumped at punch r; returns oracle failures"""
+    out = []
+    rows = run["sel"]
+    if len(rows) != len(run["dumps"]) + 1:
+        return out
+    heads = []
+    for c in rows[0]:
+        heads.append(bytes.fromhex(c[1:]).decode("latin-1") if c.startswith("S") and c != "S-" else "")
+    for d, row in zip(run["dumps"], rows[1:]):
+        cell = {}
+        for h, c in zip(heads, row):
+            if c.startswith("D"):
+                cell[h] = unhexd(c[1:])
+        W = d["W"]
+        ions = sum(abs(s["z"] * s["moles"]) for s in d["s"])
+        want = {"pH": (d["ph"], 1e-12, 1e-12), "pe": (d["pe"], 1e-12, 1e-12), "temp(C)": (d["tk"] - 273.15, 1e-9, 1e-9),
+                "mu": (d["mu"], 1e-12, 0.0), "mass_H2O": (W, 1e-12, 0.0), "charge(eq)": (d["cb"], 1e-9, 1e-12 * ions + 1e-300),
+                "Alk(eq/kgw)": (d["talk"] / W, 1e-9, 1e-300)}
+        for h, (v, rel, floor) in want.items():
+            if h in cell:
+                stats["readouts"] += 1
+                if not close(cell[h], v, rel, floor):
+                    out.append((d["idx"], ("selected-output", h, f"GetSelectedOutputValue gives {cell[h]!r}, state has {v!r}")))
+    return out
 
 
 def new_stats():
@@ -626,6 +655,10 @@ def check_runs(ctx, exe, dbname, db, dblines, texts, stats):
             cid = f"{i}.{d['idx']}"
             mlines += case_lines(d, cid)
             index.append((i, d, cid))
+    for i, run in enumerate(runs):
+        if run["rc"] == 0:
+            for di, o in judge_selected_output(run, stats):
+                findings.append((i, di, [o], [], []))
     if not index:
         return findings, runs
     out = pmodel(ctx, "\n".join(mlines) + "\n")
@@ -651,7 +684,7 @@ def run_db(ctx, exe, dbname, nruns, seed_rng, stats, cov, sweep=False):
         texts.append(t)
         metas.append(m)
     if sweep:
-        sw = gens.gen_sweep(db)
+        sw = gens.gen_sweep(db) + ([STALE_REPLAY] if dbname == "phreeqc.dat" else [])
         texts += sw
         cov["kinds"]["element-sweep"] = cov["kinds"].get("element-sweep", 0) + len(sw)
     for m in metas:
@@ -775,7 +808,7 @@ def _run(ctx, ok, exe):
     cov = {k: {} for k in ("kinds", "features", "n_elements", "temp_bins", "ph_bins", "units", "log_molal_bins")}
     dbs, excluded = databases(ctx)
     thorough = ctx.tier == "thorough" or not ok
-    nruns = 4000 if thorough else 250
+    nruns = 4000 if thorough else 800
     # 1. k_calc directly
     bad, nk = kcalc_direct(ctx, exe, 2000 if thorough else 300)
     if bad:
@@ -800,7 +833,7 @@ def _run(ctx, ok, exe):
         t0 = time.time()
         before = dict(stats)
         stats["seen"] = set()
-        db, dblines, results = run_db(ctx, exe, n, nruns, ctx.rng, stats, cov, sweep=thorough)
+        db, dblines, results = run_db(ctx, exe, n, nruns, ctx.rng, stats, cov, sweep=True)
         a, b = handle_findings(ctx, exe, n, db, dblines, results)
         tot_or += a
         tot_tie += b
